@@ -79,7 +79,22 @@ def _vnow_ms() -> float:
         if _FIXED_NOW is not None:
             return _FIXED_NOW
         raise RuntimeError('simnet clock used outside Net.run')
-    return net.loop.now_ms()
+    base = net.loop.now_ms()
+    if net.skew_in:
+        # loop latency inside one callback: in the functions named in net.skew_in (and whatever they call) the second and later
+        # reads of the clock within one activation return one millisecond more each -- time passes while the callback runs.
+        # Code that reads the clock once per activation (and hands the value on) is not affected at all.
+        f = sys._getframe(1)
+        depth = 0
+        while f is not None and depth < 16:
+            if f.f_code.co_name in net.skew_in:
+                key = (id(f), base)
+                k = net._skew_reads.get(key, 0)
+                net._skew_reads = {key: k + 1}
+                return base + k
+            f = f.f_back
+            depth += 1
+    return base
 
 
 class fixed_clock:
@@ -366,6 +381,8 @@ class Net:
         self.on_recv_done_hook: Optional[Callable[[dict], None]] = None
         self.on_send_failed_hook: Optional[Callable[[Any, bytes, Any], None]] = None
         self.unreachable: set = set()      # destination addresses to which a send fails (ENETUNREACH)
+        self.skew_in: set = set()          # functions inside which successive clock reads differ by 1 ms (see _vnow_ms)
+        self._skew_reads: Dict[Any, int] = {}
         self._creating: Optional[Host] = None
         self.max_events = 120000
         self.aborted: Optional[str] = None
